@@ -26,6 +26,10 @@ pub fn run(ctx: &mut Ctx, focus: &str, quick_total: u64, thorough_total: u64) ->
         let windows = rng.random_range(1..=4);
         let w = World::generate(&mut rng, &ep, windows, 1);
         let cfg = RunCfg {
+            late_links: match focus {
+                "C08" | "C07" => rng.random_bool(0.4),
+                _ => rng.random_bool(0.1),
+            },
             jitter: *[0.3, 1.0, 2.5, 6.0, 1e9].choose(&mut rng).unwrap(),
             dup_votes: 0.1,
             cert_frac: *[0.0, 0.2, 0.6, 1.0].choose(&mut rng).unwrap(),
@@ -35,7 +39,10 @@ pub fn run(ctx: &mut Ctx, focus: &str, quick_total: u64, thorough_total: u64) ->
             check_bundle_replay: true,
         };
         let ops = build_ops(&mut rng, &ep, &w, &cfg);
-        let out = run_ops(ctx, focus, &mut rng, &ep, w.own, &ops, &cfg, "random-world");
+        let out = run_ops(ctx, focus, &mut rng, &ep, w.own, &ops, &cfg, if cfg.late_links { "late-links" } else { "random-world" });
+        if cfg.late_links {
+            ctx.count("histories:late-links");
+        }
         ctx.count("histories");
         ctx.count_n("steps", out.steps as u64);
         if it < 2 && ctx.sample_cap() {
